@@ -1,6 +1,7 @@
 import MoPepGen.Model.Coord
 import MoPepGen.Model.Cache
 import MoPepGen.Driver.Util
+import MoPepGen.Driver.Gtf
 namespace MoPepGen.Driver.C11
 open MoPepGen MoPepGen.Driver
 
@@ -68,7 +69,7 @@ def cacheRun (size nvalid : Nat) (hist : List Nat) : String :=
   let cached := (univ.filter fun k => (c.map k).isSome).toArray.qsort (· < ·) |>.toList
   joinWith "," r ++ "|" ++ natList c.keys ++ "|" ++ natList cached
 
-def handle (args : List String) : String :=
+def handleCoord (args : List String) : String :=
   match args with
   | ["g2gene", st, iv, lo, hi] =>
     match parseStrand st, parseIv iv with
@@ -152,5 +153,10 @@ def handle (args : List String) : String :=
     | some sz, some nv, some h => cacheRun sz nv h
     | _, _, _ => "bad-args"
   | _ => "bad-op"
+
+def handle (args : List String) : String :=
+  match Gtf.handle args with
+  | some r => r
+  | none => handleCoord args
 
 end MoPepGen.Driver.C11
